@@ -130,6 +130,21 @@ func openBraces(s string) int {
 	return n
 }
 
+// family D: long chains of derive calls, each typeable only one pass after the
+// one it wraps (four and five generate/reload rounds)
+func c07FamilyD() []c07version {
+	mk := func(name, body string) c07version {
+		return c07version{name, pkgFiles{"a.go": "package m\n\nfunc up(s string) string { return s + \"!\" }\n\n" + body}}
+	}
+	return []c07version{
+		mk("D1-chain-of-four", "func use(words []string) []string {\n\treturn deriveSort(deriveKeys(deriveSet(deriveFmap(up, words))))\n}\n"),
+		mk("D2-chain-of-five", "func use(words []string) []string {\n\treturn deriveUnique(deriveSort(deriveKeys(deriveSet(deriveFmap(up, words)))))\n}\n"),
+		mk("D3-chain-of-two", "func use(words []string) map[string]struct{} {\n\treturn deriveSet(deriveFmap(up, words))\n}\n"),
+		mk("D4-chain-of-six", "func use(words []string) bool {\n\treturn deriveContains(deriveUnique(deriveSort(deriveKeys(deriveSet(deriveFmap(up, words))))), \"a!\")\n}\n"),
+		mk("D5-no-derive-calls", "func use(words []string) int {\n\treturn len(words)\n}\n"),
+	}
+}
+
 func checkC07(tier string) {
 	rep := newReporter("C07", tier)
 	var mu sync.Mutex
@@ -144,6 +159,7 @@ func checkC07(tier string) {
 		{"C", c07FamilyC(), func(i int) bool { return true }, true},
 		{"A", famA, func(i int) bool { return tier == "thorough" || i == 0 || i == 6 }, tier == "thorough"},
 		{"B", famB, func(i int) bool { return tier == "thorough" || i == 0 }, tier == "thorough"},
+		{"D", c07FamilyD(), func(i int) bool { return tier == "thorough" || i == 0 }, tier == "thorough"},
 	}
 	totalNodes, totalEdges := 0, 0
 	outcomes := map[string]int{}
@@ -331,7 +347,7 @@ func checkC07(tier string) {
 	if tier == "thorough" {
 		rep.Cov["bound"] = "every byte prefix of every output x every version of the same family (all pairs)"
 	} else {
-		rep.Cov["bound"] = "whole-file and absent nodes x every version (all pairs); every byte prefix of the outputs of A1, A7 and B1 x {same, previous, next version}; family C (two calls of one plugin, one removed): every byte prefix x all versions"
+		rep.Cov["bound"] = "whole-file and absent nodes x every version (all pairs); every byte prefix of the outputs of A1, A7 and B1 x {same, previous, next version}; family C (two calls of one plugin, one removed): every byte prefix x all versions; family D (chains of 2, 4, 5 and 6 nested derive calls): whole-file and absent nodes x all pairs, every byte prefix of D1 x {same, next}"
 	}
 	rep.Cov["exhaustive"] = true
 	rep.Assume = append(rep.Assume, "a crash is modelled as 'file holds the first k bytes' for every k; torn sector writes are not modelled")
